@@ -533,7 +533,7 @@ func slotEdgeBounded(p *Prog, site ssa.CallInstruction) (bool, string) {
 
 func init() {
 	register(&Rule{
-		ID: "C07.R8", Props: []string{"C07", "C11"}, Min: 3,
+		ID: "C07.R8", Props: []string{"C07", "C11"}, Min: 5,
 		Doc: "a circular layout chain is reported when a file repeats, not after the maximum number of rounds: every round embeds the previous output as `content` (possibly more than once), so the work of a cycle that is only cut off by the depth limit grows geometrically. The chain loop keeps a set of the files it has rendered: a map created before the loop, looked up with the name of the file about to be loaded in a guard inside the loop, before the render call, whose hit edge returns an error, and updated with that name in every round",
 		Run: func(p *Prog, c *Ctx) {
 			fn := p.MustFn("(*vuego.template).layout")
@@ -639,6 +639,139 @@ func init() {
 			c.check(found != nil, "layout: a repeated file ends the chain with an error", p.instrPos(render), "set of rendered files: created before the loop, consulted (hit → error) and updated before every render", "the chain loop does not notice a file that comes up again: a circular chain runs until the depth limit, and since every round embeds the previous output (a layout may use `content` twice) the output of a two-file cycle doubles a hundred times before the limit is reached — "+why)
 			c.ok("layout: loop", p.instrPos(load), "Load/render loop found")
 			c.ok("layout: file name", p.instrPos(load), "file name passed to Load: "+describeValue(file))
+			if found == nil {
+				return
+			}
+			// Which rounds are recorded. The loop's `first round` flag is a φ of the header that is true on
+			// entry and false on every back edge; what a round stores under its file name is evaluated for
+			// flag = false (every later round must be recorded, or a cycle is not noticed) and for
+			// flag = true (the page itself is not a layout of the chain: when it comes up again as its own
+			// default layout that is one legitimate application, not a cycle).
+			var flag *ssa.Phi
+			for _, in := range h.Instrs {
+				ph, ok := in.(*ssa.Phi)
+				if !ok {
+					break
+				}
+				if b, ok := ph.Type().Underlying().(*types.Basic); !ok || b.Kind() != types.Bool {
+					continue
+				}
+				good := true
+				for i, e := range ph.Edges {
+					k, isConst := e.(*ssa.Const)
+					if !isConst || k.Value == nil {
+						good = false
+						break
+					}
+					if constant.BoolVal(k.Value) != !loop[h.Preds[i]] {
+						good = false
+					}
+				}
+				if good {
+					flag = ph
+				}
+			}
+			if flag == nil {
+				c.ok("layout: rounds recorded", p.instrPos(load), "no first-round flag in the loop: every round is treated alike")
+				return
+			}
+			var eval func(v ssa.Value, first bool, depth int) (val, known bool)
+			eval = func(v ssa.Value, first bool, depth int) (bool, bool) {
+				if depth > 6 {
+					return false, false
+				}
+				switch x := v.(type) {
+				case *ssa.Const:
+					if x.Value != nil && x.Value.Kind() == constant.Bool {
+						return constant.BoolVal(x.Value), true
+					}
+				case *ssa.Phi:
+					if x == flag {
+						return first, true
+					}
+					res, have := false, false
+					for _, e := range x.Edges {
+						r, k := eval(e, first, depth+1)
+						if !k || (have && r != res) {
+							return false, false
+						}
+						res, have = r, true
+					}
+					return res, have
+				case *ssa.UnOp:
+					if x.Op == token.NOT {
+						r, k := eval(x.X, first, depth+1)
+						return !r, k
+					}
+				}
+				return false, false
+			}
+			dependsOnName := func(v ssa.Value) bool {
+				dep := false
+				seen := map[ssa.Value]bool{}
+				var walk func(v ssa.Value)
+				walk = func(v ssa.Value) {
+					if seen[v] || dep {
+						return
+					}
+					seen[v] = true
+					if sameFile(v) || loadedField(v) != nil {
+						dep = true
+						return
+					}
+					if in, ok := v.(ssa.Instruction); ok {
+						for _, op := range in.Operands(nil) {
+							if *op != nil {
+								walk(*op)
+							}
+						}
+					}
+				}
+				walk(v)
+				return dep
+			}
+			isSet := func(v ssa.Value) bool {
+				for _, o := range p.origins(v, OriginOpts{}) {
+					if o == ssa.Value(found) {
+						return true
+					}
+				}
+				return false
+			}
+			laterMarked, laterWhy, laterUnknown := false, "no update of the set happens in a round that is not the first", false
+			firstMarked := ""
+			var at ssa.Instruction = load
+			eachInstr(fn, func(x ssa.Instruction) {
+				mu, ok := x.(*ssa.MapUpdate)
+				if !ok || !isSet(mu.Map) || !sameFile(mu.Key) || !loop[mu.Block()] {
+					return
+				}
+				at = mu
+				onlyFirst := enteredOnlyUnder(mu.Block(), func(cond ssa.Value, want bool) bool { r, k := eval(cond, true, 0); return k && r == want && func() bool { r2, k2 := eval(cond, false, 0); return k2 && r2 != want }() })
+				onlyLater := enteredOnlyUnder(mu.Block(), func(cond ssa.Value, want bool) bool { r, k := eval(cond, false, 0); return k && r == want && func() bool { r2, k2 := eval(cond, true, 0); return k2 && r2 != want }() })
+				if !onlyFirst {
+					switch val, known := eval(mu.Value, false, 0); {
+					case known && val:
+						laterMarked = true
+					case known:
+						laterWhy = "what is stored for a later round is `false`"
+					case dependsOnName(mu.Value):
+						laterWhy = "whether a later round is recorded depends on the file's name (" + describeValue(mu.Value) + ") and not on the round: a file for which it is false goes round unrecorded"
+					default:
+						laterUnknown = true
+					}
+				}
+				if !onlyLater {
+					if val, known := eval(mu.Value, true, 0); known && val {
+						firstMarked = p.instrPos(mu)
+					}
+				}
+			})
+			if !laterMarked && laterUnknown {
+				undecided("layout: cannot evaluate what the set of rendered files records for a later round")
+			}
+			c.check(laterMarked, "layout: every round after the first is recorded", p.instrPos(at), "stored value is true whenever the first-round flag is false", "a layout that was rendered is not always recorded in the set of rendered files — "+laterWhy+": a cycle through it is only cut by the depth limit, after the output has doubled in every round")
+			c.check(firstMarked == "", "layout: the page itself is not recorded as a layout", p.instrPos(at), "nothing (or false) is stored in the first round", "the page is recorded like a layout of the chain (at "+firstMarked+"): when the page is layouts/base.vuego itself and names no layout, its one legitimate application as the default layout is reported as a circular chain")
 		},
 	})
 }
@@ -2425,7 +2558,11 @@ func lenImplies(same func(ssa.Value) bool, k int64, depth int) func(cnd ssa.Valu
 		switch calleeName(&cl.Call) {
 		case "strings.HasSuffix", "strings.HasPrefix", "bytes.HasSuffix", "bytes.HasPrefix":
 			if same(cl.Call.Args[0]) {
-				if s, ok := constString(cl.Call.Args[1]); ok && int64(len(s)) >= k {
+				affix := cl.Call.Args[1]
+				if cv, ok := affix.(*ssa.Convert); ok {
+					affix = cv.X // []byte("---")
+				}
+				if s, ok := constString(affix); ok && int64(len(s)) >= k {
 					return true
 				}
 			}
